@@ -1,6 +1,7 @@
 package main
 
 import (
+	"sort"
 	"bytes"
 	"context"
 	"fmt"
@@ -296,6 +297,7 @@ func TestVerifC21(t *testing.T) {
 		nDamage := []int{0, 1, 1, 1, 2}[tp.Choose(5)]
 		vmode := []restorer.OverwriteBehavior{restorer.OverwriteAlways, restorer.OverwriteIfChanged, restorer.OverwriteIfNewer, restorer.OverwriteNever}[tp.Choose(4)]
 		keepMtime := tp.Choose(2) == 0 // the damage leaves the file's modification time as restored
+		shrinkDuringVerify := tp.Choose(4) == 0
 		r.Set("cfg", cfg.String())
 		simrt.Run(r.T, w.s, 15*time.Minute, func() {
 			w.begin()
@@ -355,7 +357,8 @@ func TestVerifC21(t *testing.T) {
 				}
 				printer := restoreui.NewTextProgress(term, 0)
 				progress := restoreui.NewProgress(printer, true, false, false)
-				res := restorer.NewRestorer(repo, sn, restorer.Options{Sparse: sparse, Progress: progress, Overwrite: vmode})
+				shrink := &c21ShrinkRepo{Repository: repo}
+				res := restorer.NewRestorer(shrink, sn, restorer.Options{Sparse: sparse, Progress: progress, Overwrite: vmode})
 				count, err := res.RestoreTo(ctx, target)
 				if err != nil {
 					rerr = err
@@ -391,7 +394,80 @@ func TestVerifC21(t *testing.T) {
 					}
 					w.s.Count("fault:restored-file-damaged")
 				}
+				if shrinkDuringVerify && len(files) > 0 {
+					// a file shrinks while it is being verified: at the lookup of a blob that only this file
+					// contains, it is cut in the middle of that blob
+					uses := map[string]int{}
+					type loc struct {
+						f   *simfs.Node
+						off int64
+						ln  int
+					}
+					where := map[string]loc{}
+					byPath := map[string]*simfs.Node{}
+					for _, f := range files {
+						byPath[paths[f]] = f
+					}
+					var walkTree func(id restic.ID, dir string)
+					walkTree = func(id restic.ID, dir string) {
+						tr, err := data.LoadTree(ctx, repo, id)
+						if err != nil {
+							return
+						}
+						for item := range tr {
+							if item.Error != nil || item.Node == nil {
+								return
+							}
+							n := item.Node
+							p := filepath.Join(dir, n.Name)
+							switch n.Type {
+							case data.NodeTypeDir:
+								if n.Subtree != nil {
+									walkTree(*n.Subtree, p)
+								}
+							case data.NodeTypeFile:
+								f := byPath[p]
+								if f == nil {
+									continue
+								}
+								off := int64(0)
+								for _, bid := range n.Content {
+									ln, ok := repo.LookupBlobSize(restic.BlobHandle{ID: bid, Type: restic.DataBlob})
+									if !ok {
+										return
+									}
+									uses[bid.String()]++
+									where[bid.String()] = loc{f, off, int(ln)}
+									off += int64(ln)
+								}
+							}
+						}
+					}
+					if sn.Tree != nil {
+						walkTree(*sn.Tree, target)
+					}
+					var cands []string
+					for id, n := range uses {
+						if n == 1 && where[id].ln > 1 {
+							cands = append(cands, id)
+						}
+					}
+					sort.Strings(cands)
+					if len(cands) > 0 {
+						id := cands[tp.Choose(len(cands))]
+						l := where[id]
+						shrink.trigger, _ = restic.ParseID(id)
+						shrink.path = paths[l.f]
+						shrink.cutAt = l.off + int64(l.ln/2)
+						shrink.armed = true
+						desc = append(desc, fmt.Sprintf("%s: cut to %d bytes while it is being verified", l.f.Name, shrink.cutAt))
+						w.s.Count("fault:file-shrinks-during-verify")
+					}
+				}
 				nchecked, verr = res.VerifyFiles(ctx, target, count, restic.NoopCounter)
+				if shrink.armed && !shrink.fired {
+					r.Count("shrink_not_triggered", 1)
+				}
 				progress.Finish()
 				return nil
 			})
@@ -421,4 +497,24 @@ func TestVerifC21(t *testing.T) {
 			r.Count("files_verified", nchecked)
 		})
 	})
+}
+
+// c21ShrinkRepo truncates one restored file at the moment the verification looks up the size of one
+// particular blob of it (between the file's stat and the read of that blob).
+type c21ShrinkRepo struct {
+	restic.Repository
+	armed   bool
+	trigger restic.ID
+	path    string
+	cutAt   int64
+	fired   bool
+}
+
+func (c *c21ShrinkRepo) LookupBlobSize(bh restic.BlobHandle) (uint, bool) {
+	if c.armed && !c.fired && bh.Type == restic.DataBlob && bh.ID == c.trigger {
+		c.fired = true
+		_ = os.Chmod(c.path, 0o644)
+		_ = os.Truncate(c.path, c.cutAt)
+	}
+	return c.Repository.LookupBlobSize(bh)
 }
